@@ -1151,6 +1151,15 @@ fn hang_binop_expression(
                 ExpressionSide::Left
             };
 
+            // When we recurse into an operand, its context is determined by this operator, not by the context of
+            // the whole expression: otherwise required parentheses such as `(-x) ^ y` or `x + (y :: T)` are dropped
+            let lhs_context = if let BinOp::Caret(_) = binop {
+                ExpressionContext::BinaryLHSExponent
+            } else {
+                ExpressionContext::UnaryOrBinary
+            };
+            let rhs_context = ExpressionContext::UnaryOrBinary;
+
             // TODO/FIXME: using test_shape here leads to too high of an indent level, causing the expression to hang unnecessarily
             let over_column_width =
                 is_hang_binop_over_width(test_shape, &full_expression, &binop, lhs_range);
@@ -1184,7 +1193,7 @@ fn hang_binop_expression(
                                 },
                                 lhs_shape,
                                 lhs_range,
-                                expression_context,
+                                lhs_context,
                             ),
                             if contains_comments(&*rhs) {
                                 hang_binop_expression(
@@ -1193,7 +1202,7 @@ fn hang_binop_expression(
                                     binop,
                                     shape,
                                     lhs_range,
-                                    expression_context,
+                                    rhs_context,
                                 )
                             } else {
                                 format_expression_internal(
@@ -1212,7 +1221,7 @@ fn hang_binop_expression(
                                     binop.clone(),
                                     shape,
                                     lhs_range,
-                                    expression_context,
+                                    lhs_context,
                                 )
                             } else {
                                 let context = if let BinOp::Caret(_) = binop {
@@ -1228,7 +1237,7 @@ fn hang_binop_expression(
                                 if same_op_level { top_binop } else { binop },
                                 rhs_shape,
                                 lhs_range,
-                                expression_context,
+                                rhs_context,
                             ),
                         ),
                     };
@@ -1247,7 +1256,7 @@ fn hang_binop_expression(
                             binop.to_owned(),
                             shape,
                             lhs_range,
-                            expression_context,
+                            lhs_context,
                         )
                     } else {
                         let context = if let BinOp::Caret(_) = binop {
@@ -1265,7 +1274,7 @@ fn hang_binop_expression(
                             binop,
                             shape,
                             lhs_range,
-                            expression_context,
+                            rhs_context,
                         )
                     } else {
                         format_expression_internal(
@@ -1434,7 +1443,11 @@ fn format_hanging_expression_(
                 binop.to_owned(),
                 shape,
                 lhs_range,
-                ExpressionContext::UnaryOrBinary,
+                if let BinOp::Caret(_) = binop {
+                    ExpressionContext::BinaryLHSExponent
+                } else {
+                    ExpressionContext::UnaryOrBinary
+                },
             );
 
             let current_shape = shape.take_last_line(&lhs) + 1; // 1 = space before binop
@@ -1448,7 +1461,7 @@ fn format_hanging_expression_(
                 binop.to_owned(),
                 singleline_shape,
                 None,
-                ExpressionContext::Standard,
+                ExpressionContext::UnaryOrBinary,
             );
 
             // Examine the last line to see if we need to hang this binop, or if the precedence levels match
@@ -1467,7 +1480,7 @@ fn format_hanging_expression_(
                     binop.to_owned(),
                     hanging_shape,
                     None,
-                    ExpressionContext::Standard,
+                    ExpressionContext::UnaryOrBinary,
                 )
                 .update_leading_trivia(FormatTriviaType::Replace(Vec::new()));
             }
